@@ -7,7 +7,7 @@ From Coq Require Import List NArith.
 From RaftLog Require Import Base.Bytes Model.Types Model.Cache Model.Core Model.Recover Model.Run.
 From RaftLog Require Import Spec.Spec Spec.Hist.
 From RaftLog Require Import Model.Sys Proofs.JournalFacts Proofs.ReadInv Proofs.ReadFacts.
-From RaftLog Require Proofs.PurgeFacts Proofs.PurgeLive Proofs.ReadSys Proofs.ReadSysFaults Proofs.ReadRestart.
+From RaftLog Require Proofs.PurgeFacts Proofs.PurgeLive Proofs.ReadSys Proofs.ReadSysFaults Proofs.ReadRestart Proofs.ReadRestarts Proofs.RestartCycles.
 Import ListNotations.
 
 (* Finding F2: a Raft-legal history (append three entries at term 5, flush, worker idle,
@@ -107,9 +107,55 @@ Theorem C07_restart_refuted : exists cfg cfg' ops res y,
     ~ observes y' (spec_ops spec0 ops).
 Proof. exact ReadRestart.C07_restart_refuted. Qed.
 
+(* [restart_ok] is not an extra assumption: for a history outside the known class it HOLDS at
+   every flushed idle point (invariant HB: every boundary the worker still has to install is
+   the [last] of the snapshot heading that file on disk, or None for the oldest file).  So
+   across a clean restart the same side condition as without restarts suffices: *)
+Theorem C07_restart_reads_total_strong : forall cfg cfg' ops res y,
+  ops_c07 spec0 ops = true -> Forall op_wf ops ->
+  (match open_dir cfg [] with OpenOk y0 => run_ok_c07b y0 ops = true | _ => False end) ->
+  run_case cfg ops = (res, Some y) ->
+  y_queue y = [] -> k_pending (y_core y) = [] ->
+  exists y', open_dir cfg' (y_disk y) = OpenOk y' /\ observes y' (spec_ops spec0 ops) /\
+             I7 y' (spec_ops spec0 ops).
+Proof. exact ReadRestarts.C07_restart_reads_total_strong. Qed.
+
+(* ANY number of clean restarts (each a flush followed by a reopen under its own
+   configuration with ANY cache and chunk limits), drains, reads and worker progress anywhere:
+   outside the known class (the same run-time check, which follows the run through the
+   restarts) the store observes the reference log at the end — and, the theorem being closed
+   under prefixes of the history, at every point *)
+Theorem C07_restarts_reads_total : forall cfg ops res fin,
+  ReadRestarts.ops_c07r spec0 ops = true -> Forall op_wf ops ->
+  (match open_dir cfg [] with OpenOk y0 => ReadRestarts.run_ok_c07r y0 ops = true | _ => False end) ->
+  run_case cfg ops = (res, fin) ->
+  exists y, fin = Some y /\ observes y (spec_ops spec0 ops).
+Proof. exact ReadRestarts.C07_restarts_reads_total. Qed.
+
+(* the hypotheses are met by a history with two restarts (a one-item cache, then a zero
+   cache), rotation, truncate + re-append above the boundaries, drain and purge *)
+Theorem C07_restarts_nonvacuous :
+  let cfg := mkConfig 0 0 3 100000 true in
+  let cfg1 := mkConfig 1 10 4 100000 false in
+  let cfg2 := mkConfig 0 0 2 100000 true in
+  let ops := [OW (OAppend [((1, 0), [Byte.x01]); ((1, 1), []); ((1, 2), [])]); OFlush true; ORestart cfg1;
+              OW (OTruncate 2); OW (OAppend [((2, 2), []); ((2, 3), [Byte.x02])]); ODrain; ORead 0 10;
+              OW (OPurge (1, 0)); OFlush false; ORestart cfg2;
+              OW (OAppend [((3, 4), [Byte.x03])]); ORead 0 10; ODumpIter]%N in
+  ReadRestarts.ops_c07r spec0 ops = true /\ Forall op_wf ops /\
+  (match open_dir cfg [] with OpenOk y0 => ReadRestarts.run_ok_c07r y0 ops = true | _ => False end) /\
+  RestartCycles.restart_cfgs ops = [cfg1; cfg2].
+Proof.
+  intros cfg cfg1 cfg2 ops.
+  destruct ReadRestarts.C07_restarts_hyps_inhabited as (H1 & H2 & H3 & H4 & _).
+  repeat split; assumption.
+Qed.
+
 Print Assumptions C07_reads_total_outside_known_L2.
 Print Assumptions C07_refuted_live.
 Print Assumptions C07_reads_total_outside_known.
 Print Assumptions C07_restart_reads_total.
 Print Assumptions C07_restart_continue.
 Print Assumptions C07_restart_refuted.
+Print Assumptions C07_restart_reads_total_strong.
+Print Assumptions C07_restarts_reads_total.
